@@ -232,6 +232,9 @@ func (info ScriptListInfo) encode() []byte {
 
 	totalSize := 2 + 6*len(scriptLangs) // scriptCount, scriptRecords
 	for _, sRec := range scriptList {
+		if totalSize > 0xFFFF {
+			panic("script list too large")
+		}
 		sRec.offset = uint16(totalSize)
 		langCount := 0
 		for _, tag := range scriptLangs[sRec.script] {
@@ -294,6 +297,9 @@ func (info ScriptListInfo) encode() []byte {
 			pos += 6 + len(defaultRecord.langSys.Optional)*2
 		}
 		for _, lRec := range langSysRecords {
+			if pos > 0xFFFF {
+				panic("script table too large")
+			}
 			lRec.offs = uint16(pos)
 			pos += 6 + len(lRec.langSys.Optional)*2
 		}
